@@ -143,6 +143,8 @@ class RawBinaryReader:
                 )
 
                 batch_data, n_read = self._read_batch(n_block_to_read)
+                if n_read == 0:
+                    break  # end of data: no further block can be read, the counter would never advance
                 futures.append(executor.submit(read_bes_raw, batch_data, sub_detectors))
                 n_total_blocks_read += n_read
 
